@@ -55,6 +55,12 @@ def op? (e : Sexp) : Option Op :=
   | .list [.atom "remc", d, ix] => do
     let d ← d.toNat?
     some (.removeComp d (d, ← ix.toNat?))
+  | .list [.atom "addd", d, i, fr, ix, cs, off] => do
+    let d ← d.toNat?
+    some (.addDerived d (← i.toNat?) ⟨← cids? fr, (d, ← ix.toNat?), ← fn? cs off⟩)
+  | .list [.atom "upid", d, o, n] => do
+    let d ← d.toNat?
+    some (.updateId d (d, ← o.toNat?) (d, ← n.toNat?))
   | .list [.atom "addl", en] => (entry? en).map .addLink
   | .list (.atom "addls" :: es) => (es.mapM entry?).map .addLinks
   | .list [.atom "reml", i] => i.toNat?.map .removeLink
@@ -69,6 +75,8 @@ def opCids : Op → List Cid
   | .newData _ comps => comps.map (·.1)
   | .addComp _ c _ => [c]
   | .removeComp _ c => [c]
+  | .addDerived _ _ l => l.to :: l.froms
+  | .updateId _ o n => [o, n]
   | .addLink e => e.cids
   | .addLinks es => es.flatMap Entry.cids
   | _ => []
@@ -161,26 +169,31 @@ def specObsOk (univ : List Cid) (thr : Int) (s : MState) (st : Status) (wf : Boo
     od.vals.length == univ.length &&
     -- own components always read their own array
     D.comps.all (fun c => out c == some (ownVal s.vals c)) &&
+    -- own derived attributes always read their defining function of what the dataset reads
+    D.derived.all (fun p => out p.2.to == match allSome (p.2.froms.map out) with
+      | some vs => some (applyFn p.2.fn vs)
+      | none => none) &&
     -- outside a delay block: reachability and composed values
     (s.delay != 0 ||
       (od.deriv == univ.filter (fun c => !decide (c ∈ D.comps) && (specDepth D.comps ls c).isSome) &&
-       univ.all (specOkAt D.comps ls (ownVal s.vals) applyFn out))) &&
+       univ.all (fun c => decide (c ∈ D.derivedIds) || specOkAt D.comps ls (ownVal s.vals) applyFn out c))) &&
     -- a selection `cid > thr` selects exactly the elements whose derived value satisfies it
     (match od.masks with
      | none => true
      | some ms => ms == od.vals.map (maskOf thr))
 
-def brOf (s : MState) (anyMulti anyDelay : Bool) : String :=
+def brOf (s : MState) (anyMulti anyDelay : Bool) (anyDer : Bool := false) : String :=
   let nder := (s.dsets.map fun D => (D.cache.via.map (·.1)).eraseDups.length).sum
-  (if anyDelay then "delay-" else "") ++ (if anyMulti then "multi-" else "") ++
+  (if anyDer then "der-" else "") ++ (if anyDelay then "delay-" else "") ++ (if anyMulti then "multi-" else "") ++
     (if nder == 0 then "none" else if nder < 4 then "few" else "many")
 
 partial def runHist (univ : List Cid) (thr : Int) :
     MState → List Op → List Obs → Bool → Bool → List Obs → Bool → Bool → (List Obs × Bool × Bool × Bool × Bool × MState)
   | s, op :: ops, py :: pys, clean, wf, acc, ok, implok =>
-    let clean' := clean
     let wf' := wf && wfOp s op
     let (s', st) := step py.ord s op
+    -- inside the hypotheses of `manager_inv` / `manager_reads`
+    let clean' := clean && wf' && (s'.delay != 0 || s'.dsets.all internalFirst)
     let mo := modelObs univ thr s' st py
     let ok' := ok && specObsOk univ thr s' st wf' py
     let implok' := implok && specObsOk univ thr s' st wf' mo
@@ -197,6 +210,10 @@ def isDelay : Op → Bool
   | .delayBegin => true
   | _ => false
 
+def isDer : Op → Bool
+  | .addDerived _ _ _ => true
+  | _ => false
+
 def step1 (line : String) : String :=
   match Sexp.parse line with
   | some (.list [.atom "hist", .list [thr, ops], pyout]) =>
@@ -208,12 +225,12 @@ def step1 (line : String) : String :=
       | some pys =>
         if pys.length != ops.length then driverError "hist-obs-length" else
         let (mos, ok, implok, clean, _, s) := runHist univ thr MState.init ops pys true true [] true true
-        driverResult (.list (mos.map ofObs)) ok implok clean (brOf s (ops.any isMulti) (ops.any isDelay))
+        driverResult (.list (mos.map ofObs)) ok implok clean (brOf s (ops.any isMulti) (ops.any isDelay) (ops.any isDer))
       | none =>
         -- unparsable python output (exception / timeout atoms): run the model with empty orders
         let pys := ops.map fun _ => (⟨.atom "?", [], [], []⟩ : Obs)
         let (mos, _, implok, clean, _, s) := runHist univ thr MState.init ops pys true true [] true true
-        driverResult (.list (mos.map ofObs)) false implok clean (brOf s (ops.any isMulti) (ops.any isDelay))
+        driverResult (.list (mos.map ofObs)) false implok clean (brOf s (ops.any isMulti) (ops.any isDelay) (ops.any isDer))
     | _, _ => driverError "hist-args"
   | _ => driverError "unknown-family"
 
